@@ -4,9 +4,14 @@ package main
 import (
 	"flag"
 	"fmt"
+	"go/ast"
 	"os"
+	"path/filepath"
 	"runtime/debug"
 	"sort"
+	"strings"
+
+	"verif/internal/inl"
 
 	"verif/internal/load"
 	"verif/internal/props"
@@ -18,9 +23,14 @@ func main() {
 	tier := flag.String("tier", "quick", "quick|thorough")
 	root := flag.String("root", "/verif", "verif root (evidence, known findings)")
 	list := flag.Bool("list", false, "list registered properties")
+	listFuncs := flag.Bool("listfuncs", false, "print the function names of the tree (recorded as known_functions.txt)")
 	mutantID := flag.String("mutant", "", "internal (thorough tier): analyse the tree with this catalogued mutation applied as an overlay")
 	catalogue := flag.String("catalogue", "", "internal: root holding selfcheck/ when -mutant is given")
 	flag.Parse()
+	if *listFuncs {
+		listFunctions()
+		return
+	}
 	if *list {
 		ids := props.IDs()
 		sort.Strings(ids)
@@ -28,6 +38,9 @@ func main() {
 			fmt.Println(id)
 		}
 		return
+	}
+	if *prop == "all" {
+		os.Exit(runAll(*tier, *root))
 	}
 	p := props.Get(*prop)
 	if p == nil {
@@ -68,7 +81,7 @@ func main() {
 				return
 			}
 		}
-		prog, err := load.Load(p.NeedDeps, overlay)
+		prog, err := loadNormalised(p.NeedDeps, overlay, *root)
 		if err != nil && *mutantID != "" {
 			fmt.Printf("MUTANT-NOBUILD %v\n", err)
 			code = 3
@@ -87,4 +100,121 @@ func main() {
 		code = r.Finish()
 	}()
 	os.Exit(code)
+}
+
+// runAll decides every registered property on one load of the tree (evaluation harnesses
+// only; the registered commands run one property per process). Prints "RESULT <id> <rc>".
+func runAll(tier, root string) int {
+	prog, err := loadNormalised(true, nil, root)
+	if err != nil {
+		fmt.Printf("LOAD-FAILED %v\n", err)
+		return 1
+	}
+	ids := props.IDs()
+	sort.Strings(ids)
+	worst := 0
+	for _, id := range ids {
+		if id[0] != 'C' {
+			continue
+		}
+		p := props.Get(id)
+		r := report.New(id, tier, root)
+		code := 1
+		func() {
+			defer func() {
+				if e := recover(); e != nil {
+					fmt.Printf("UNDECIDED property=%s reason=checker panic: %v\n", id, e)
+					code = r.Abort(fmt.Sprintf("checker panic: %v", e))
+				}
+			}()
+			r.Count("packages", len(prog.Pkgs))
+			p.Run(&props.Ctx{P: prog, R: r, Tier: tier})
+			code = r.Finish()
+		}()
+		fmt.Printf("RESULT %s %d\n", id, code)
+		if code > worst {
+			worst = code
+		}
+	}
+	return worst
+}
+
+// loadNormalised loads the tree and, when it contains functions the rules have never seen
+// (names absent from known_functions.txt), loads it again with their call sites inlined.
+func loadNormalised(deps bool, overlay map[string][]byte, root string) (*load.Program, error) {
+	// with an overlay every package is loaded from source (see below)
+	prog, err := load.Load(deps || overlay != nil, overlay)
+	if err != nil {
+		return nil, err
+	}
+	known := knownFunctions(root)
+	if known == nil || os.Getenv("VERIF_NO_INLINE") != "" {
+		return prog, nil
+	}
+	if overlay != nil {
+		// the overlay mutants are edits of known functions; inlining reads sources from disk
+		return prog, nil
+	}
+	ov, log := inl.Overlay(prog.Pkgs, prog.Fset, load.ModPath, known)
+	if len(ov) == 0 {
+		return prog, nil
+	}
+	if d := os.Getenv("VERIF_DUMP_INLINE"); d != "" {
+		os.MkdirAll(d, 0o755)
+		for f, b := range ov {
+			os.WriteFile(filepath.Join(d, filepath.Base(f)), b, 0o644)
+		}
+	}
+	// with an overlay, packages that depend on rewritten files are type-checked from source while
+	// the others would come from export data: load everything from source so that each package
+	// exists once (the SSA builder relies on that)
+	prog2, err := load.Load(true, ov)
+	if err != nil {
+		fmt.Printf("NOTE inlining of new helper functions did not type-check (%v); analysing the tree as it is\n", err)
+		return prog, nil
+	}
+	fmt.Printf("NOTE analysed with new helper functions inlined at their call sites: %s\n", strings.Join(log, "; "))
+	return prog2, nil
+}
+
+func knownFunctions(root string) map[string]bool {
+	b, err := os.ReadFile(filepath.Join(root, "known_functions.txt"))
+	if err != nil {
+		if exe, e2 := os.Executable(); e2 == nil {
+			b, err = os.ReadFile(filepath.Join(filepath.Dir(filepath.Dir(exe)), "known_functions.txt"))
+		}
+	}
+	if err != nil {
+		return nil
+	}
+	m := map[string]bool{}
+	for _, l := range strings.Split(string(b), "\n") {
+		if l = strings.TrimSpace(l); l != "" {
+			m[l] = true
+		}
+	}
+	return m
+}
+
+func listFunctions() {
+	prog, err := load.Load(false, nil)
+	if err != nil {
+		fmt.Println("load failed:", err)
+		os.Exit(1)
+	}
+	var names []string
+	for _, pk := range prog.Pkgs {
+		rel := strings.TrimPrefix(strings.TrimPrefix(pk.PkgPath, load.ModPath), "/")
+		for _, f := range pk.Syntax {
+			for _, d := range f.Decls {
+				if fd, ok := d.(*ast.FuncDecl); ok {
+					names = append(names, inl.QualName(rel, fd))
+				}
+			}
+		}
+	}
+	sort.Strings(names)
+	for _, n := range names {
+		fmt.Println(n)
+	}
 }
